@@ -1,6 +1,6 @@
 CONSTANTS NS = 6 ND = 14 K = 1000000 MaxCrash = 0 Record = TRUE
 SPECIFICATION Spec
 VIEW DiagView
-CONSTRAINT SafeHW
+CONSTRAINT DiagC
 INVARIANT EmitViol
-POSTCONDITION Accepted
+POSTCONDITION DiagAccepted
